@@ -206,6 +206,19 @@ func introspectRemoteSchema(factory QueryerFactory, url string) (*ast.Schema, er
 		return nil, perr
 	}
 
+	// The formatter writes a `schema { ... }` block that names only the root types whose
+	// name is not the default one. When one root has a custom name and another has not,
+	// the block is incomplete and the default-named root is lost on the way back.
+	if formattedSchema.Query == nil && schema.Query != nil {
+		formattedSchema.Query = formattedSchema.Types[schema.Query.Name]
+	}
+	if formattedSchema.Mutation == nil && schema.Mutation != nil {
+		formattedSchema.Mutation = formattedSchema.Types[schema.Mutation.Name]
+	}
+	if formattedSchema.Subscription == nil && schema.Subscription != nil {
+		formattedSchema.Subscription = formattedSchema.Types[schema.Subscription.Name]
+	}
+
 	return formattedSchema, nil
 }
 
